@@ -70,6 +70,9 @@ def run(ctx):
     from .. import dictshape_bind
 
     dictshape_bind.run_matrix(ctx, "C15")
+    from .. import xmlshape_bind
+
+    xmlshape_bind.run_matrix(ctx, "C15")
     byte_level(ctx)
     json_faults(ctx, cases)
 
